@@ -101,6 +101,11 @@ func planFor(prop, tier string) plan {
 		if tier == "quick" {
 			p.steps = 3500
 		}
+	case "C04", "C02":
+		if tier == "quick" {
+			p.variants = []string{"default", "prefix"} // "prefix" carries rows that only a genesis file can create
+			p.steps = 2000
+		}
 	}
 	if s := special.Plan(prop, tier); s != nil {
 		p.workers, p.variants, p.steps = s.Workers, s.Variants, s.Steps
